@@ -46,6 +46,10 @@ impl PartialEq for Digest {
     #[verifier::external_body]
     fn eq(&self, other: &Self) -> (r: bool) ensures r == (*self == *other) { unimplemented!() }
 }
+impl vstd::std_specs::cmp::PartialEqSpecImpl for Digest {
+    open spec fn obeys_eq_spec() -> bool { true }
+    open spec fn eq_spec(&self, other: &Digest) -> bool { *self == *other }
+}
 impl Eq for Digest {}
 impl std::hash::Hash for Digest {
     #[verifier::external_body]
@@ -389,6 +393,14 @@ pub assume_specification<T, F> [<[T]>::sort_by] (s: &mut [T], f: F)
         final(s)@.len() == old(s)@.len(),
         sorted_by_closure(final(s)@, f);
 
+// [A-unwrap-or-else] Result::unwrap_or_else
+pub assume_specification<T, E, F> [std::result::Result::<T, E>::unwrap_or_else] (res: std::result::Result<T, E>, f: F) -> (o: T)
+    where F: std::ops::FnOnce(E,) -> T + std::marker::Destruct,
+    requires res matches Err(e) ==> call_requires(f, (e,)),
+    ensures
+        res matches Ok(t) ==> o == t,
+        res matches Err(e) ==> call_ensures(f, (e,), o);
+
 // Iterator::any / Iterator::all on a slice iterator: VERIFIED helpers (not assumptions); the generator
 // rewrites `X.iter().any(CL)` to `slice_any(X.as_slice(), CL)` (rule R-iter-any, logged), because the
 // installed vstd gives `any`/`all` no usable specification.
@@ -468,15 +480,72 @@ pub trait CBORTagged {
         ensures r@.len() >= 1, r@[0].value == Self::tag_spec();
 }
 pub trait CBORTaggedEncodable: CBORTagged {
-    spec fn untagged_spec(&self) -> CBOR;
+    // relational: `c` is the untagged CBOR of self
+    spec fn untagged_rel(&self, c: CBOR) -> bool;
     spec fn untagged_pre(&self) -> bool;
     fn untagged_cbor(&self) -> (r: CBOR)
         requires self.untagged_pre()
-        ensures r == self.untagged_spec();
+        ensures self.untagged_rel(r);
     // default method of dcbor: Tagged(cbor_tags()[0], untagged_cbor())
     #[verifier::external_body]
     fn tagged_cbor(&self) -> (r: CBOR)
         requires self.untagged_pre()
-        ensures r == cbor_tagged(Self::tag_spec(), self.untagged_spec())
+        ensures is_tagged_rel(r, Self::tag_spec(), |c: CBOR| self.untagged_rel(c))
     { unimplemented!() }
+}
+pub open spec fn is_tagged_rel(r: CBOR, tag: u64, inner_ok: spec_fn(CBOR) -> bool) -> bool {
+    *r.0 matches CBORCase::Tagged(t, inner) && t.value == tag && inner_ok(inner)
+}
+pub trait CBORTaggedDecodable: CBORTagged + Sized {
+    // relational: decoding `c` (untagged) may yield `r`
+    spec fn decode_rel(c: CBOR, r: Result<Self>) -> bool;
+    fn from_untagged_cbor(cbor: CBOR) -> (r: Result<Self>)
+        ensures Self::decode_rel(cbor, r);
+    // default method of dcbor: checks the tag (any of cbor_tags()), then from_untagged_cbor(item)
+    #[verifier::external_body]
+    fn from_tagged_cbor(cbor: CBOR) -> (r: Result<Self>)
+        ensures
+            (*cbor.0 matches CBORCase::Tagged(t, inner) && t.value == Self::tag_spec()) ==> Self::decode_rel(cbor.0->Tagged_1, r),
+            !(*cbor.0 matches CBORCase::Tagged(t, inner) && t.value == Self::tag_spec()) ==> r is Err,
+    { unimplemented!() }
+}
+// EncryptedMessage / Compressed codecs (bc-components): [A-enc-codec], [A-comp-codec]
+impl EncryptedMessage { pub uninterp spec fn em_untagged(&self) -> CBOR; }
+impl Compressed { pub uninterp spec fn cz_untagged(&self) -> CBOR; }
+impl CBORTagged for EncryptedMessage {
+    open spec fn tag_spec() -> u64 { tags::TAG_ENCRYPTED }
+    #[verifier::external_body]
+    fn cbor_tags() -> (r: Vec<Tag>) { unimplemented!() }
+}
+impl CBORTaggedEncodable for EncryptedMessage {
+    open spec fn untagged_rel(&self, c: CBOR) -> bool { c == self.em_untagged() }
+    open spec fn untagged_pre(&self) -> bool { true }
+    #[verifier::external_body]
+    fn untagged_cbor(&self) -> (r: CBOR) { unimplemented!() }
+}
+impl CBORTaggedDecodable for EncryptedMessage {
+    // decoding is the inverse of encoding: Ok(m) iff c is m's untagged CBOR
+    open spec fn decode_rel(c: CBOR, r: Result<Self>) -> bool {
+        (r matches Ok(m) ==> m.em_untagged() == c) && (r is Err ==> forall|m: EncryptedMessage| m.em_untagged() != c)
+    }
+    #[verifier::external_body]
+    fn from_untagged_cbor(cbor: CBOR) -> (r: Result<Self>) { unimplemented!() }
+}
+impl CBORTagged for Compressed {
+    open spec fn tag_spec() -> u64 { tags::TAG_COMPRESSED }
+    #[verifier::external_body]
+    fn cbor_tags() -> (r: Vec<Tag>) { unimplemented!() }
+}
+impl CBORTaggedEncodable for Compressed {
+    open spec fn untagged_rel(&self, c: CBOR) -> bool { c == self.cz_untagged() }
+    open spec fn untagged_pre(&self) -> bool { true }
+    #[verifier::external_body]
+    fn untagged_cbor(&self) -> (r: CBOR) { unimplemented!() }
+}
+impl CBORTaggedDecodable for Compressed {
+    open spec fn decode_rel(c: CBOR, r: Result<Self>) -> bool {
+        (r matches Ok(m) ==> m.cz_untagged() == c) && (r is Err ==> forall|m: Compressed| m.cz_untagged() != c)
+    }
+    #[verifier::external_body]
+    fn from_untagged_cbor(cbor: CBOR) -> (r: Result<Self>) { unimplemented!() }
 }
